@@ -164,6 +164,26 @@ CLAIMED = {
                      "correspondence + trace oracle",
         "design_ref": "DESIGN.md section 7 (C10)",
     },
+    "C11": {
+        "text": "Theorems: C11_crash_states (after ANY history of writes and finalizes, every byte-level prefix of the operation "
+                "sequence issued to the .shp - cuts inside a write included - leaves H' ++ (byte-prefix of the record stream of "
+                "the accepted shapes), H' being 100 bytes, any mixture of an old and a new header, or fewer with nothing after), "
+                "C11_read_any_header (for ANY 100 bytes in front - whatever length, type and box they declare - and any "
+                "byte-prefix of a stream of conformant records, opening fails or sequential reading yields a prefix of what the "
+                "records denote followed by at most one UnexpectedEof), C11_crash_prefix (their composition: on every crash "
+                "state of the .shp a reader without index fails to open or yields a prefix of the written shapes - never a "
+                "shape that was not written, never a reordered one, never a panic), C11_torn_length_monotone (L4: a length "
+                "field torn between an earlier finalize's value and a larger one reads >= the earlier value). Tie: the real "
+                "traces equal the model's; the real reader is run on EVERY operation-prefix pair sampled across both "
+                "destinations and on byte cuts, with and without index, and compared with the model; oracle incl. 'everything "
+                "before a completed finalize stays readable'.",
+        "note": COMMON_NOTE + "The crash model is the property's own (prefix of issued operations per destination); OS write-back "
+                "reordering is outside it. The with-index route and the committed-stays-readable clause are decided by the "
+                "correspondence + oracle over all cuts of bounded workloads (partial: theorems cover the no-index route and L4).",
+        "technique": "Coq proof (invariant over byte-exploded operation traces of the writer; reader theorem for arbitrary "
+                     "headers over record-stream prefixes; composition) + exhaustive cut enumeration through the real reader",
+        "design_ref": "DESIGN.md section 7 (C11)",
+    },
     "C12": {
         "text": "Theorems: C12_fault_surfaces (a writer call is a straight-line list of destination operations; on destinations "
                 "with ANY fault plan - the k-th write, seek or flush of either file, one-shot or persistent - exactly a prefix of "
